@@ -4,6 +4,7 @@ import (
 	"encoding/base64"
 	"fmt"
 	"os"
+	"time"
 	"path/filepath"
 	"regexp"
 	"sort"
@@ -14,9 +15,10 @@ import (
 
 // ---- C16: fc always terminates with either complete output or a diagnostic (I/O faults + step budget) ----
 
-const c16BudgetFloor = int64(200_000_000)
+const c16BudgetFloor = int64(50_000_000)
 const c16MaxInput = 32 * 1024
 
+var reFuncN = regexp.MustCompile(`(\.func\d+)+(\.\d+)*$`)
 var reFrame = regexp.MustCompile(`(?m)^(main\.[A-Za-z0-9_\.\(\)\*]+?)(?:\[[^\n]*\])?\(`)
 
 // stackFuncs returns the main.* functions of a Go stack trace in order of appearance (innermost first).
@@ -32,7 +34,7 @@ func stackFuncs(stderr string) []string {
 func recursionCycle(stderr string) string {
 	cnt := map[string]int{}
 	for _, f := range stackFuncs(stderr) {
-		f = strings.TrimSuffix(f, ".func1")
+		f = reFuncN.ReplaceAllString(f, "")
 		cnt[f]++
 	}
 	var cyc []string
@@ -169,7 +171,37 @@ func head(xs []string, n int) []string {
 	return xs
 }
 
+// stressFamily: scenarios built from a stress schema carry "stress:<family>:<size>" in their note.
+func stressFamily(sc *Scenario) string {
+	if !strings.HasPrefix(sc.Note, "stress:") {
+		return ""
+	}
+	parts := strings.SplitN(sc.Note, ":", 3)
+	if len(parts) < 2 {
+		return ""
+	}
+	return parts[1]
+}
+
+// c16Family re-labels resource exhaustion (step budget, out of memory) on a stress-schema input by the schema
+// family instead of by the frame that happened to be running: two families are inherent (the Go type the program
+// denotes is exponentially large) and are listed as known findings by family; every other family is not.
+func c16Family(sc *Scenario, v *Violation) *Violation {
+	fam := stressFamily(sc)
+	if v == nil || fam == "" {
+		return v
+	}
+	if v.Class == "budget" || (v.Class == "fatal" && (strings.Contains(v.Signature, "memory") || strings.Contains(v.Signature, "stack-overflow"))) {
+		return &Violation{Class: "exhausted", Signature: "exhausted#stress:" + fam, Detail: "stress schema " + sc.Note + ": " + v.Detail + " [" + v.Signature + "]"}
+	}
+	return v
+}
+
 func judgeC16(c *Ctx, sc *Scenario) *Violation {
+	return c16Family(sc, judgeC16Raw(c, sc))
+}
+
+func judgeC16Raw(c *Ctx, sc *Scenario) *Violation {
 	if sc.Real {
 		s := sc.Clone()
 		s.Real = false
@@ -214,6 +246,16 @@ func c16RealOracle(sc *Scenario, r *Result, rr *RealResult) *Violation {
 }
 
 func shrinkC16(c *Ctx, sc *Scenario, v *Violation, judge Judge) (*Scenario, *Violation) {
+	// shrinking a non-termination finding costs a full step budget per candidate that still hangs: bound the effort
+	// (a candidate tried after the limit counts as "does not fail", so the minimisation simply stops early)
+	limit := time.Now().Add(75 * time.Second)
+	inner := judge
+	judge = func(c *Ctx, s *Scenario) *Violation {
+		if time.Now().After(limit) {
+			return nil
+		}
+		return inner(c, s)
+	}
 	cur := shrinkFaults(c, sc, v.Class, judge)
 	cur = shrinkArgv(c, cur, v.Class, judge)
 	cur = shrinkItems(c, cur, v.Class, judge)
@@ -222,7 +264,7 @@ func shrinkC16(c *Ctx, sc *Scenario, v *Violation, judge Judge) (*Scenario, *Vio
 	if same(judge(c, d), v.Class) {
 		cur = d
 	}
-	nv := judge(c, cur)
+	nv := inner(c, cur)
 	if nv == nil || nv.Class != v.Class {
 		return sc, v
 	}
@@ -250,6 +292,9 @@ func totalInput(sc *Scenario) int {
 func c16BaseScenario(c *Ctx, r *common.Rng, run int, pools [][]*Program) *Scenario {
 	var p *Program
 	switch n := r.Intn(20); {
+	case r.Chance(1, 60):
+		name, text := stressProgram(r)
+		p = newProgram(name, []string{"pkg/pkg_all.foi", "st/stress.fo"}, map[string][]byte{"pkg/pkg_all.foi": pkgAllFoi, "st/stress.fo": []byte(text)}, "stress")
 	case n < 5:
 		p = pools[0][r.Intn(len(pools[0]))] // samples + tool
 	case n < 8 && len(pools[1]) > 0:
@@ -460,7 +505,8 @@ func checkC16(tier string) {
 	}
 	var bads []bad
 	for i, r := range twins {
-		if r.Ticks > maxFree && !r.Budget {
+		// stress schemas are built to be expensive; the budget baseline is what ordinary inputs cost
+		if r.Ticks > maxFree && !r.Budget && !strings.HasPrefix(bases[i].Note, "stress:") {
 			maxFree = r.Ticks
 		}
 		if r.Exit == 0 {
@@ -468,7 +514,7 @@ func checkC16(tier string) {
 		} else {
 			c.count("control_reject", 1)
 		}
-		if v := c16Oracle(bases[i], r); v != nil {
+		if v := c16Family(bases[i], c16Oracle(bases[i], r)); v != nil {
 			c.count("control_violations", 1)
 			bads = append(bads, bad{bases[i], v})
 		}
@@ -532,7 +578,7 @@ func checkC16(tier string) {
 			c.addSample(map[string]any{"base": sc.Note, "argv": sc.Argv, "faults": sc.Faults, "damage": dm, "capacity": sc.Disk.Capacity,
 				"fired": fired, "exit": res.Exit, "ticks": res.Ticks, "stdout_tail": tail(res.Stdout, 120)}, 12)
 		}
-		return outcome{sc, c16Oracle(sc, res)}
+		return outcome{sc, c16Family(sc, c16Oracle(sc, res))}
 	}, nil)
 	for _, o := range outs {
 		if o.v != nil {
@@ -580,6 +626,9 @@ func checkC16(tier string) {
 	c.phase("shipped fc on real directories")
 	nReal := n / 25
 	routs := parallel(c, nReal, func(k int) outcome {
+		if twins[k*25].Budget {
+			return outcome{}
+		}
 		sc := bases[k*25].Clone()
 		sc.Real = true
 		sc.TickBudget = budget
@@ -593,6 +642,7 @@ func checkC16(tier string) {
 	}
 	// permanent corpus: replays of fixed and known findings and hand-kept boundary scenarios
 	if ents, err := os.ReadDir(filepath.Join(verifDir, "corpus", "c16")); err == nil {
+		var cs []*Scenario
 		for _, e := range ents {
 			if filepath.Ext(e.Name()) != ".json" {
 				continue
@@ -603,10 +653,16 @@ func checkC16(tier string) {
 			}
 			sc.Expect = nil
 			sc.TickBudget = budget
-			sc.Note = "corpus:" + e.Name()
+			sc.Note += "|corpus:" + e.Name()
+			cs = append(cs, sc)
+		}
+		c.phase(fmt.Sprintf("permanent corpus (%d scenarios)", len(cs)))
+		for _, o := range parallel(c, len(cs), func(k int) outcome {
 			c.count("corpus_scenarios", 1)
-			if v := judgeC16(c, sc); v != nil {
-				bads = append(bads, bad{sc, v})
+			return outcome{cs[k], judgeC16(c, cs[k])}
+		}, nil) {
+			if o.v != nil {
+				bads = append(bads, bad{o.sc, o.v})
 			}
 		}
 	}
@@ -666,6 +722,16 @@ func checkC16(tier string) {
 	rawSeen := map[string]int{}
 	for _, b := range bads {
 		c.count("raw_violation:"+b.v.Signature, 1)
+		// a listed finding is reported as such without minimising it again (its replay is in the corpus)
+		if k := common.KnownFor(c.Findings, c.Prop, b.v.Signature); k != nil {
+			if !seenSig[b.v.Signature] {
+				seenSig[b.v.Signature] = true
+				msg := fmt.Sprintf("KNOWN-FINDING: property=%s %s [%s]", c.Prop, k.What, b.v.Signature)
+				c.Known = append(c.Known, msg)
+				fmt.Println(msg)
+			}
+			continue
+		}
 		rawSeen[b.v.Signature]++
 		if rawSeen[b.v.Signature] > 2 { // shrink at most two raw cases per raw signature
 			continue
@@ -684,7 +750,7 @@ func checkC16(tier string) {
 		"one evaluation = one fc invocation on a simulated disk with 1..3 injected faults (read error, missing or directory input, damaged stored input: truncation/flip/drop/dup/swap/insert/repeat, write error, ENOSPC, finite capacity, destination is a directory) placed on I/O its fault-free twin performs, judged by the exit/diagnostic/file discipline over the recorded I/O history and by a step budget; distinct and non-trivial = scenario hash is new and at least one fault fired or one damaged file was read. Fault-free twins are controls: judged too, reported, not counted. Thorough adds truncation at every offset of every sample (exhaustive, each counted).",
 		map[string]any{
 			"fault_free_controls":           len(twins),
-			"tick_budget_rule":              "B = max(2e8, 100 x largest tick count among this batch's fault-free runs)",
+			"tick_budget_rule":              "B = max(5e7, 100 x largest tick count among this batch's fault-free runs on ordinary (non-stress) inputs)",
 			"tick_budget":                   budget,
 			"largest_fault_free_run_ticks":  maxFree,
 			"input_size_bound_bytes":        c16MaxInput,
@@ -733,7 +799,7 @@ func loopOwner(stderr string) (string, []string) {
 	if n == 0 {
 		return "?", nil
 	}
-	return fa[n-1], tailStrs(fa[:n], 5)
+	return reFuncN.ReplaceAllString(fa[n-1], ""), tailStrs(fa[:n], 5)
 }
 
 func tailStrs(xs []string, n int) []string {
